@@ -793,7 +793,7 @@ def main():
         for k, it in enumerate(itemsets):
             it = dict(it)
             if lang in ('kotlin', 'swift') and k % 4 != 0:
-                it['consts'] = []        # write_const is todo!() there: keep most cases alive
+                it['consts'] = []        # write_const returns Err(Unsupported) there: keep most cases alive
             cases.append((lang, cfgs[k % len(cfgs)], it, False))
         res = back.run_ir(cases)
         for k, (case, r) in enumerate(zip(cases, res)):
